@@ -1,7 +1,111 @@
 import ConfModel.Driver.Common
+import ConfModel.Model.Assert
+import ConfModel.Spec.Agree
+import ConfModel.Generated.C03Facts
 namespace ConfModel.Driver.C03
-open Lean ConfModel.Driver
+open Lean ConfModel.Driver ConfModel.Assert ConfModel.Agree
 
-def handle : Handler := fun op _inp _impl => bad ("C03: unknown op " ++ op)
+def grace : Int := ConfModel.Generated.C03Facts.grace
+
+def optInt (j : Json) : Option Int := if isNull j then none else some (int j)
+def optStr (j : Json) : Option String := if isNull j then none else some (str j)
+
+def pHeaders (j : Json) : List Header :=
+  (arr j).map fun h => { name := str (field h "n"), values := (strList (field h "v")).map String.toList }
+
+def pMsg (j : Json) : Msg := { tag := str (field j "t"), data := unhex (str (field j "d")) }
+
+def pReqInfo (j : Json) : ReqInfo :=
+  { headers := pHeaders (field j "h"), timeoutMs := optInt (field j "to"),
+    requests := (arr (field j "rq")).map pMsg, queryParams := pHeaders (field j "q") }
+
+def pPayload (j : Json) : Payload :=
+  { data := unhex (str (field j "d")),
+    reqInfo := if isNull (field j "ri") then none else some (pReqInfo (field j "ri")) }
+
+def pDetail (j : Json) : Detail :=
+  if isNull (field j "ri") then .other (pMsg (field j "o")) else .reqInfo (pReqInfo (field j "ri"))
+
+def pErr (j : Json) : Option Err :=
+  if isNull j then none else
+  some { code := nat (field j "c"), message := optStr (field j "m"), details := (arr (field j "d")).map pDetail }
+
+def pResult (j : Json) : Result :=
+  { headers := pHeaders (field j "h"), payloads := (arr (field j "p")).map pPayload, error := pErr (field j "e"),
+    trailers := pHeaders (field j "t"), numUnsent := nat (field j "u"), httpStatus := optInt (field j "s") }
+
+def pStream : Nat → StreamType
+  | 1 => .unary | 2 => .clientStream | 3 => .serverStream | 4 => .halfDuplexBidi | 5 => .fullDuplexBidi
+  | _ => .unspecified
+
+def whatStr : What → String
+  | .responseHeaders => "response headers" | .responseTrailers => "response trailers"
+  | .responseMetadata => "response metadata" | .requestHeaders => "request headers"
+  | .queryParams => "request query params"
+
+def render : Discrepancy → String
+  | .unexpectedError => "unexpectedError" | .missingError => "missingError" | .code => "code"
+  | .message => "message" | .detailCount => "detailCount" | .detail i => "detail:" ++ toString i
+  | .payloadCount => "payloadCount" | .payloadData i => "payloadData:" ++ toString i
+  | .headerMissing w n => "headerMissing:" ++ whatStr w ++ ":" ++ n
+  | .headerValues w n => "headerValues:" ++ whatStr w ++ ":" ++ n
+  | .timeoutMissing => "timeoutMissing" | .timeoutRange => "timeoutRange"
+  | .timeoutUnexpected => "timeoutUnexpected" | .requestCount => "requestCount"
+  | .request k => "request:" ++ toString k | .status => "status"
+
+/-- a value the leniency "joined or split on commas" speaks of: no comma, no space at either end -/
+def cleanVal (v : Val) : Bool := !v.contains ',' && v.head? != some ' ' && v.getLast? != some ' '
+
+def handle : Handler := fun op inp impl =>
+  if !(isNull (field impl "panic")) then
+    { agree := false, holds := false, why := "panic: " ++ str (field impl "panic") } else
+  match op with
+  | "assert" =>
+    let st := pStream (nat (field inp "st"))
+    let other := natList (field inp "other")
+    let e := pResult (field inp "exp")
+    let a := pResult (field inp "act")
+    let expect := str (field inp "expect")
+    let mutn := str (field inp "mut")
+    let iErrs := strList (field impl "errs")
+    let recorded := bool (field impl "recorded")
+    let m := (assert grace st other e a).map render
+    let agree := recorded && iErrs == m
+    let model := toJson m
+    let kind := ((mutn.splitOn ":").getLast?.getD mutn).takeWhile (fun c => c != '@' && c != '=') |>.toString
+    if !decide (WellFormed e a) then
+      { agree := agree, holds := true, nontrivial := false, model := model, cls := "not-well-formed" }
+    else
+    let agrees := decide (Agree grace st other e a)
+    let passed := iErrs.isEmpty
+    let named := expect.isEmpty || iErrs.contains expect
+    let why :=
+      if !recorded then "unrecorded: assert recorded no outcome for the case"
+      else if passed && !agrees then "missed: the results do not agree (" ++ mutn ++ ") but no discrepancy was reported"
+      else if !passed && agrees then "spurious: the results agree up to the documented leniencies (" ++ mutn ++ ") but " ++ toString iErrs ++ " was reported"
+      else if !named then "unnamed: deviation " ++ mutn ++ " must be named as " ++ expect ++ " but the report is " ++ toString iErrs
+      else ""
+    { agree := agree, holds := why.isEmpty, nontrivial := mutn != "identical", model := model, why := why,
+      cls := (if agrees then "agree:" else "deviate:") ++ kind }
+  | "canon" =>
+    let vals := (strList (field inp "vals")).map String.toList
+    let ic := (strList (field impl "canon")).map String.toList
+    let ij := (strList (field impl "joinedComma")).map String.toList
+    let is := (strList (field impl "joinedSpace")).map String.toList
+    let comma : Val := [',']
+    let commaSp : Val := [',', ' ']
+    let mc := canon vals
+    let mj := canon [comma.intercalate vals]
+    let ms := canon [commaSp.intercalate vals]
+    let agree := ic == mc && ij == mj && is == ms
+    -- the leniency: clean values, joined with "," or ", ", canonicalise to the values themselves
+    let clean := !vals.isEmpty && vals.all cleanVal
+    let holds := !clean || (ic == vals && ij == vals && is == vals)
+    { agree := agree, holds := holds, nontrivial := vals.any (fun v => v.contains ',' || v.contains ' '),
+      model := Json.mkObj [("canon", toJson (mc.map String.ofList)), ("joinedComma", toJson (mj.map String.ofList)),
+        ("joinedSpace", toJson (ms.map String.ofList))],
+      why := if holds then "" else "join: clean values joined on commas do not canonicalise to themselves",
+      cls := if clean then "clean" else "other" }
+  | _ => bad ("C03: unknown op " ++ op)
 
 end ConfModel.Driver.C03
